@@ -33,6 +33,19 @@ PROPS = {
         "not_modelled": "panics inside Rewriter while every candidate is rewritten (C18)",
         "assumptions": ["the visited functions are pure, so DAG memoisation equals tree recursion"],
     },
+    "C01": {
+        "model_targets": ["QV/Corr/C01.vo"],
+        "oracle": "the input relation of every noise-adding map executed on SQLite for a generated database (values outside the declared ranges, many rows per unit) and for every neighbour obtained by deleting one privacy unit: the L2 norm over the groups of the change of each noised column must not exceed the clipping constant the sigma was scaled by (read off the IR)",
+        "trusted": [
+            "correspondence: harness/src/dp.rs run_c01 (executes the map holding the _CLIPPED_ columns on SQLite, sums raw and clipped values per unit and group) and QV/Corr/C01.v (rational check of the characterisation C01_clip_inactive / C01_clip_active of the model, tolerance 1e-6)",
+            "ir.rs: the clipping constant is read off the scale-factor expression, sigma off the noise expression",
+            "SQLite (bundled, rusqlite 0.31) with the shims of harness/src/sqlite.rs as the executor of rendered SQL",
+            "real-number axioms of Coq's Reals",
+            "modelled, not verified: Relation::l2_norms, scale_factor, l2_clipped_sums; the model takes the contribution of a unit as a function of that unit's rows only (C05)",
+        ],
+        "not_modelled": "how the per-unit contributions arise from the tracked relation (C05: unit-locality; broken by LIMIT: known finding C01-limit-under-tracking), float rounding of the SQL arithmetic",
+        "assumptions": ["C > 0", "a unit's contribution vector depends on its own rows only (C05)"],
+    },
     "C02": {
         "generate": "GEN-RULES",
         "model_targets": ["QV/Corr/Rules.vo"],
@@ -56,6 +69,30 @@ PROPS = {
         ],
         "not_modelled": "f64 rounding of the budget arithmetic (compared at 1e-8); clamp of infinite multipliers",
         "assumptions": ["eps > 0, delta > 0, 0 <= share <= 1 (share < 1 when keys need thresholding)"],
+    },
+    "C04": {
+        "model_targets": ["QV/Corr/C04.vo"],
+        "oracle": "tau and sigma of the plan against an independent recomputation (own inverse normal CDF); the rewritten SQL run on SQLite with the noise draw fixed: every released key needs count of distinct units + noise > tau, a key of one unit is never released with a non-positive draw",
+        "trusted": [
+            "correspondence: harness/src/dp.rs run_c04 (reads tau / sigma off the rewritten IR through ir.rs, executes the rendered SQL on SQLite with sqlite::set_noise replacing the Box-Muller factor, numbers units and keys) and QV/Corr/C04.v",
+            "SQLite (bundled, rusqlite 0.31) with the shims of harness/src/sqlite.rs (md5, greatest, least, random) as the executor of rendered SQL",
+            "real-number axioms of Coq's Reals for the tau formula over R",
+            "modelled, not verified: tau_thresholding_values, limit_col_contributions, distinct, gaussian_tau",
+            "cited, not proved: tau = 1 + sigma * quantile gives (eps, delta)-DP key release (Wilson et al. 2019)",
+        ],
+        "not_modelled": "the random ranking of a unit's groups (a parameter of the model; the released set is bracketed), the normal quantile function (a parameter), the left join of released keys with the aggregation input",
+        "assumptions": ["one noise draw per key (the Box-Muller expression is evaluated once per row of the per-key count relation)"],
+    },
+    "C09": {
+        "model_targets": ["QV/Corr/C09.vo"],
+        "oracle": "the rewritten SQL run on SQLite with every Box-Muller factor replaced by 0, on in-range databases with the multiplicity bound set to the relation size, against a reference query over the data (population variance for VAR / STD): same groups, same values to 1e-6, extra groups only with zero counts and sums",
+        "trusted": [
+            "correspondence: harness/src/dp.rs run_c09 (executes the rendered DP query and the (unit, value) rows behind every aggregate on SQLite) and QV/Corr/C09.v (model evaluated on exact rationals, tolerance 1e-6)",
+            "SQLite (bundled, rusqlite 0.31) with the shims of harness/src/sqlite.rs as the executor of rendered SQL; sqlite::set_noise (textual replacement of the Box-Muller factor)",
+            "modelled, not verified: PupRelation::differentially_private_aggregates (recombination), Reduce::split_distinct_aggregates / rewrite_distinct, the _ONE_ null indicator",
+        ],
+        "not_modelled": "the joins that reassemble the DISTINCT groups and the public keys (checked by the oracle: groups and values), float rounding (1e-6), the square root of STDDEV (compared through its square)",
+        "assumptions": ["noise factor 0, data inside the declared ranges, no unit above the multiplicity bound (the clipping factor is then 1: C01_clip_inactive)"],
     },
     "C12": {
         "model_targets": ["QV/Corr/C12.vo"],
